@@ -223,6 +223,7 @@ class QueueOutOfOrder(TemplateException):
 class ResetComplete(TemplateException):
     code = 128
     template = "reset_complete.md"
+    dont_repeat_if_in_history = 0  # allow repeating if requested by user
 
 
 class LossyResetWarning(TemplateException):
